@@ -58,9 +58,9 @@ func vSymHeap(n int, order int) (Heap[vItem], []vPrio) {
 	if order == 1 {
 		h = NewCmp(func(a, b vItem) int {
 			if less(a, b) {
-				return -1
+				return -3 // (any negative number means "less": not only -1)
 			} else if less(b, a) {
-				return 1
+				return 5
 			}
 			return 0
 		}, items)
@@ -209,9 +209,9 @@ func vSymPQ(n int, order int) (PriorityQueue[int, vPrio], []vPrio) {
 	if order == 1 {
 		return NewPriorityQueueCmp(func(a, b vPrio) int {
 			if less(a, b) {
-				return -1
+				return -3 // (any negative number means "less": not only -1)
 			} else if less(b, a) {
-				return 1
+				return 5
 			}
 			return 0
 		}, items), prio
